@@ -499,6 +499,33 @@ def var_records(run, fc, box, key, it):
                         w_ok = w_ok and base[0] == "range" and base[1] == ("lit", 0) and L.strip_ids(L.freeze(base[2])) == L.strip_ids(L.freeze(cnt[1][1]))
                 ok = good_alt and w_ok
                 why = "the bytes after ChannelMappingFamily are %s" % ", ".join(L.show(t)[:100] for t in tail)
+        # RFC 7845 5.1.1: family 0 is defined for one or two channels only
+        if cnt[0] == "expr" and fam[0] in ("expr", "const"):
+            cexpr = cnt[1][1]
+
+            def evl(x, ch):
+                if L.strip_ids(L.freeze(x)) == L.strip_ids(L.freeze(cexpr)):
+                    return ch
+                h = x[0]
+                if h == "lit":
+                    return int(x[1])
+                if h == "bool":
+                    return int(bool(x[1]))
+                if h == "cast":
+                    return evl(x[2], ch)
+                if h == "if":
+                    return evl(x[2], ch) if evl(x[1], ch) else evl(x[3], ch)
+                if h == "bin":
+                    a_, b_ = evl(x[2], ch), evl(x[3], ch)
+                    return {"Gt": int(a_ > b_), "Ge": int(a_ >= b_), "Lt": int(a_ < b_), "Le": int(a_ <= b_), "Eq": int(a_ == b_), "Ne": int(a_ != b_), "Add": a_ + b_, "Sub": a_ - b_, "BitAnd": a_ & b_, "BitOr": a_ | b_}[x[1]]
+                raise ValueError(h)
+            try:
+                famv = [(ch, (fam[1][0] if fam[0] == "const" else evl(fam[1][1], ch))) for ch in range(1, 9)]
+                badc = [ch for ch, f_ in famv if ch > 2 and f_ == 0]
+                run.check(not badc, "R3", key + " mapping family vs channels", "family != 0 for more than two channels (evaluated for 1..8 channels)",
+                          "ChannelMappingFamily is 0 for %s channels; RFC 7845 defines family 0 for mono and stereo only" % badc)
+            except (ValueError, KeyError, IndexError, TypeError):
+                run.bad("R3", key + " mapping family vs channels", "cannot evaluate ChannelMappingFamily as a function of the channel count: %s" % (L.show(fam[1])[:80] if fam[0] == "expr" else fam,))
         run.check(ok, "R3", key + " channel mapping table", "StreamCount, CoupledCount, ChannelMapping[OutputChannelCount] present iff ChannelMappingFamily != 0",
                   "dOps channel mapping table is not conditional on `ChannelMappingFamily != 0` with one mapping byte per output channel: " + why)
     elif fc == b"av1C":
